@@ -662,6 +662,65 @@ theorem C04_command_exit0_iff_wellformed (tool : Tool) (guard fwd : Bool) (amb :
   have hce' : severityOf c ≥ LibErrors.SEVERITY_ERROR := by simpa [isErrorCode, sev] using hce
   omega
 
+/-! ## `FileWF` is inhabited by a non-trivial file (and refuted by a one-token change of it)
+
+A two-schema file with inheritance across the schema border: `client` interfaces `lib.p` under the new name `pp`; `e SUBTYPE OF (pp)`
+has an attribute of a defined type, a DERIVE initialiser calling a function and naming an attribute inherited from `lib.p`, UNIQUE
+references to an inherited and an own attribute, a domain rule on `SELF.pb` (declared by `lib.p`); `e2 SUBTYPE OF (e)` refers to
+`SELF.x` and to `SELF.y.pa` with `y : pp`; `lib.p` is itself a subtype of `lib.g`, which lists it in `SUPERTYPE OF`.  (No `SELF\pp.a`
+qualifier: `declName` goes through `String.splitOn`, which the kernel does not evaluate.)  Every conjunct of `FileWF` is discharged
+through `file_accepts_iff` by evaluating the model. -/
+
+/-- the example file -/
+def wfExample : File :=
+  ⟨"x.exp",
+   [⟨"client", 1,
+      [.type ⟨"len", 3, .ref .simple, []⟩,
+       .func ⟨"f", 5, 1, .function, ["p0"], [⟨"s0", 6, [.bareAttr "p0"], false⟩]⟩,
+       .entity ⟨"e", 8, [("pp", 8)], [],
+          [⟨"x", 9, .named "len" 9, none, none⟩, ⟨"d", 12, .simple, none, none⟩],
+          [⟨"d", 12, [.call "f" 1, .bareAttr "pb"], false⟩, ⟨"w1", 16, [.selfAttr "pb"], true⟩],
+          [⟨"u1", 14, none, "pb"⟩, ⟨"u2", 15, none, "x"⟩], false⟩,
+       .entity ⟨"e2", 18, [("e", 18)], [], [⟨"y", 19, .named "pp" 19, none, none⟩],
+          [⟨"w1", 21, [.selfAttr "x", .dot "y" "pa" false], true⟩], [], false⟩],
+      [⟨.use, "lib", 2, some [⟨"p", some "pp", 2⟩]⟩], none⟩,
+    ⟨"lib", 24,
+      [.entity ⟨"g", 25, [], ["p"], [⟨"ga", 26, .simple, none, none⟩], [], [], false⟩,
+       .entity ⟨"p", 28, [("g", 28)], [], [⟨"pa", 29, .simple, none, none⟩, ⟨"pb", 30, .simple, none, none⟩], [], [], false⟩],
+      [], none⟩],
+   []⟩
+
+/-- the nesting-bound hypothesis of `file_accepts_iff` from a bound on the linked views -/
+theorem wfExample_hlim (f : File) (h : ∀ s ∈ liveSchemas f, (linked f ResolveGen.renameUselistFallback s).decls.length < 5000) :
+    ∀ k, ResolveGen.subsuperDepthLimit = some k →
+      ∀ s ∈ liveSchemas f, (linked f ResolveGen.renameUselistFallback s).decls.length < k := by
+  intro k hk
+  have : k = 5000 := by
+    have h5 : ResolveGen.subsuperDepthLimit = some 5000 := by decide
+    rw [h5] at hk; exact (Option.some.inj hk).symm
+  subst this; exact h
+
+set_option maxRecDepth 100000 in
+/-- `_witness`: the predicate of `C04_accepts_iff_wellformed` holds for a concrete multi-schema file with interfaced supertypes -/
+theorem C04_FileWF_inhabited_witness : FileWF wfExample :=
+  ((file_accepts_iff wfExample [] (wfExample_hlim wfExample (by decide))).mp (by decide)).2
+
+/-- the same file with one reference changed (`SELF.pb` -> `SELF.pc`, which nobody declares) -/
+def wfExampleBroken : File :=
+  { wfExample with schemas := wfExample.schemas.map fun s =>
+      { s with decls := s.decls.map fun
+          | .entity e => .entity { e with rules := e.rules.map fun r =>
+              { r with items := r.items.map fun | .selfAttr "pb" => .selfAttr "pc" | it => it } }
+          | d => d } }
+
+set_option maxRecDepth 100000 in
+/-- `_witness`: … and fails when one reference of that file names an attribute nobody declares -/
+theorem C04_FileWF_fails_witness : ¬ FileWF wfExampleBroken := by
+  intro h
+  have := (file_accepts_iff wfExampleBroken [] (wfExample_hlim wfExampleBroken (by decide))).mpr ⟨rfl, h⟩
+  revert this
+  decide
+
 example : ∃ r, dfs false "a" (fun _ => ["a"]) 3 ["a"] [] = some r ∧ r.found = true := ⟨⟨true, [], []⟩, by decide, rfl⟩
 
 end StepModel.Express.C04
